@@ -263,6 +263,7 @@ var profC01 = profile{
 	tweak:      func(t *rapid.T, c *harness.Config) { c.LockAfter = rapid.IntRange(2, 6).Draw(t, "lockafter2") },
 	faultPct:   8, // every C01 rule is a safety rule: it must hold whichever backend call fails
 	jsonMangle: 5,
+	badQuery:   4, badQueryForm: true,
 	acctTweak: func(t *rapid.T, i int, a *harness.AccountSpec, c *harness.Config) {
 		if a.Locked && chance(t, "unlockseed", 50) {
 			a.Locked = false
